@@ -72,6 +72,21 @@ def _check_d1_characters(name):
             raise pycdlibexception.PyCdlibInvalidInput('ISO9660 filenames must consist of characters A-Z, 0-9, and _')
 
 
+def _valid_iso9660_version(version):
+    # type: (bytes) -> bool
+    """
+    A function to check that a file version consists only of decimal digits
+    and denotes a number between 1 and 32767 (Ecma-119 7.5.1).
+
+    Parameters:
+     version - The version string to check.
+    Returns:
+     True if the version is valid, False otherwise.
+    """
+    digits = version.lstrip(b'0')
+    return version.isdigit() and 0 < len(digits) <= 5 and int(digits) <= 32767
+
+
 def _split_iso9660_filename(fullname):
     # type: (bytes) -> Tuple[bytes, bytes, bytes]
     """
@@ -126,7 +141,7 @@ def _check_iso9660_filename(fullname, interchange_level):
     # found ISOs in the wild (FreeBSD 10.1 amd64) that do not have any version
     # number.  Allow for this.
 
-    if version != b'' and (int(version) < 1 or int(version) > 32767):
+    if version != b'' and not _valid_iso9660_version(version):
         raise pycdlibexception.PyCdlibInvalidInput('ISO9660 filenames must have a version between 1 and 32767')
 
     # Ecma-119 section 7.5.1 specifies that filenames must have at least one
@@ -218,7 +233,7 @@ def _interchange_level_from_filename(fullname):
 
     interchange_level = 1
 
-    if version != b'' and (int(version) < 1 or int(version) > 32767):
+    if version != b'' and not _valid_iso9660_version(version):
         interchange_level = 3
 
     if b';' in name or b';' in extension:
